@@ -22,6 +22,9 @@ Definition elem_at (l : gline) (n : nat) (e : elem) : Prop :=
     loc = mk_loc n (Some (l_indent l + 1)) /\ line_startswith l [PIPE] = true
     /\ cells = map (fun it => mk_cell (loc_at n (l_indent l + 1) (fst it)) (snd it)) (table_cells l)
   | EText _ => True       (* free text carries no location *)
+  | EDoc loc delim media =>
+    loc = mk_loc n (Some (l_indent l + 1)) /\ line_startswith l delim = true
+    /\ media = match rstrip_crlf (get_rest_trimmed l (length delim)) with [] => None | mt => Some mt end
   end.
 
 Lemma first_title_keyword_some l ks k : first_title_keyword l ks = Some k -> In k ks /\ startswith_title_keyword l k = true.
@@ -79,6 +82,17 @@ Proof.
     intros H. inversion H; subst t m'. clear H. destruct (first_prefix_some _ _ _ F) as [_ St].
     unfold tok_elems, set_matched, get_location. cbn [m_keyword m_text option_map tk_loc tk_line]. rewrite L.
     constructor; [|constructor]. cbn [elem_at kind_beq]. auto.
+  - (* DocStringSeparator *)
+    assert (Open : forall sep, match_docsep m t0 l sep true = MYes t m' -> Forall (elem_at l (loc_line (tk_loc t0))) (tok_elems KDocStringSeparator t)).
+    { intros sep. unfold match_docsep. destruct (line_startswith l sep) eqn:St; [|discriminate]. intros H. inversion H; subst t m'. clear H.
+      unfold tok_elems, set_matched, get_location. cbn [m_text m_keyword option_map tk_loc tk_line]. rewrite L.
+      constructor; [|constructor]. cbn [elem_at]. split; [reflexivity|]. split; [exact St|]. destruct (rstrip_crlf _); reflexivity. }
+    destruct (ms_sep m) as [sep|].
+    + unfold match_docsep. destruct (line_startswith l sep); [|discriminate]. intros H. inversion H; subst t m'. cbn. constructor.
+    + destruct (match_docsep m t0 l DQ3 true) as [|t1 m1|e t1 m1] eqn:M1.
+      * apply Open.
+      * intros H. inversion H; subst. apply (Open DQ3 M1).
+      * discriminate.
   - (* TableRow *)
     destruct (line_startswith l [PIPE]) eqn:St; [|discriminate].
     intros H. inversion H; subst t m'. clear H. unfold tok_elems, set_matched, get_location, get_cells. cbn [m_items tk_loc tk_line loc_line]. rewrite L.
